@@ -8,7 +8,12 @@ MANIFEST = dict(
           "returns what the abstract sequence returns and leaves equal contents, for every capacity, index, history and every "
           "runtime growth choice; failing calls leave contents and capacity unchanged; no call panics; len <= cap is invariant. "
           "The shifting loops of slice.Add/Delete are modelled literally and proved equal to insertIdx/eraseIdx; calCapacity is "
-          "regenerated from the source. The model is an acceptor for traces of the real lists (incl. ConcurrentList wrapper) on every run."),
+          "regenerated from the source. Props/C04Rev.lean: no-panic / error-leaves-whole-state-unchanged / error iff index out of the "
+          "permitted range for all three implementations, every-history refinement for all three, len <= cap over histories under "
+          "the per-allocation oracle constraint only, findNode walks and the COW delete copy as loops. Props/C04Ring.lean: the "
+          "LinkedList at pointer level (heap of nodes with nil-able prev/next, sentinel ring, splice/unlink, length counter) never "
+          "dereferences nil, keeps the ring invariant and computes exactly the value-level LinkedList.step after every history "
+          "from NewLinkedList (c04_ring_step_refines, c04_ring_run_refines). The model is an acceptor for traces of the real lists (incl. ConcurrentList wrapper) on every run."),
     note=COMMON_NOTE + " Slice growth capacity is an oracle constrained only by cap>=len; AsSlice freshness is probed dynamically (aliasing is not in the value-level model).",
     technique="Lean 4 refinement proof (model refines abstract sequence, induction over histories) + trace-acceptance correspondence against the real lists",
 )
